@@ -167,6 +167,11 @@ impl GenerationPass for AvailableValuePass {
                 if let Some((reg, reg_value)) = node.gen_reg_value() {
                     out_reg_n.insert(reg, reg_value);
                 }
+                if node.is_function_entry() {
+                    // A function is entered by calls from anywhere, so nothing that
+                    // held on a fall-through path into it is known to hold
+                    out_reg_n = AvailableValueMap::new();
+                }
                 if node.is_handler_function_entry() {
                     out_reg_n.extend(Register::all_writable_set().into_available_values());
                 }
